@@ -17,17 +17,20 @@ CHECKS = {
             BOUNDED % "01" + "get_nodes(mustexist=True|False)/exists compared with spec.query (node identity + order, both notations) over all documents "
             "<= 4 nodes x the segment vocabulary.  Deductive part: the handlers it rests on are verified for safety under C15; functional "
             "post-conditions are discharged for the KEY handler (hash, integer-key mismatch, list index: exactly this child; pass-through: each "
-            "element handed on with its own coordinates), the INDEX handler (plain index incl. negative; hash / set slices select by the text range) and the "
-            "unfiltered wildcard, and for the entry points exists / get_nodes (which driver runs on the whole document, results relayed unchanged, "
-            "Unmatched exactly when nothing was yielded, exists <=> the required driver yields something); the SEARCH / ANCHOR / traversal handlers and "
-            "the drivers' concatenation are not, so nothing is claimed as proved here.",
+            "element handed on with its own coordinates), the INDEX handler (plain index incl. negative; list slices: which elements in which order, element by "
+            "element; hash / set slices select by the text range), the unfiltered wildcard (every child and nothing else), the SEARCH handler's non-descendant "
+            "forms (per candidate: yielded exactly when search_matches differs from `inverted`; only the candidate loop yields, so inverted = complement), and for "
+            "the entry points exists / get_nodes (which driver runs on the whole document, results relayed unchanged, Unmatched exactly when nothing was yielded, "
+            "exists <=> the required driver yields something); the ANCHOR / traversal / filtered-wildcard handlers, descendant searches and the drivers' "
+            "concatenation are not, so nothing is claimed as proved here.",
             "bounded run-time contract check of the real query API against an executable spec (stand-in for the deductive handler post-conditions)",
             "DESIGN.md §6 C01, Appendix A"),
     "C02": ("exploration",
             BOUNDED % "02" + "parent/parentref/ancestry/reported-path re-resolution of every result of every query, keys over the escapable punctuation set. "
             "Deductive part: YAMLPath.__add__ proved total and non-mutating (C15 contract); the wf_step clauses (node is parent[parentref], ancestry = incoming + "
             "(parent, ref) as a NEW list, path = incoming + rendered reference as a NEW path, recorded segment) are discharged at the yield sites of the KEY "
-            "handler and the unfiltered wildcard; the remaining handlers are bounded only.",
+            "handler, the unfiltered wildcard, the SEARCH handler's candidate loops and the INDEX handler (each element of a list slice where it is appended); "
+            "the remaining handlers are bounded only.",
             "bounded run-time contract check (wf + re-query of every result)",
             "DESIGN.md §6 C02"),
     "C03": ("exploration",
@@ -75,13 +78,18 @@ CHECKS = {
             "bounded run-time contract check, exhaustive over the small anchor space",
             "DESIGN.md §6 C05/C10/C11"),
     "C11": ("exploration",
-            BOUNDED % "11" + "merge aimed at a path: target subtree equals the policy merge, complement unchanged, missing targets created, uncreatable targets refused.",
+            BOUNDED % "11" + "merge aimed at a path: target subtree equals the policy merge, complement unchanged, missing targets created, uncreatable targets refused; "
+            "[rules] entries below the merge point, naming it, and naming nodes outside it.  Deductive part (proved): the policy look-ups of C05 (230 VCs), and "
+            "yaml_merge.main: the loop over the inputs is entered with status 0 at every iteration, ends an iteration normally only with status 0 and leaves "
+            "through break only with a non-zero status; the write-out happens exactly when the final status is 0, and that status is what sys.exit receives "
+            "(\"no partial write-out\" after a failing input; two of its call pre-conditions are a recorded finding: inputs that hold no document).",
             "bounded run-time contract check with complement snapshots",
             "DESIGN.md §6 C05/C10/C11"),
     "C12": ("proof",
             "Every verification condition of Searches.search_matches and Nodes.typed_value is generated from the current source and discharged: "
             "result == documented typed rules for all methods, terms and values; no exception for a well-formed term; "
-            "the search handler's yield sites use the proved comparison through its call-site contract. "
+            "the SEARCH handler built on it is verified functionally for its non-descendant forms (per candidate: yielded exactly when search_matches differs "
+            "from `inverted`; the candidate loop is the only yielder, so the inverted search yields exactly the complement, for every number of candidates). "
             "Bounded: the full operator x haystack x needle grid natively (validates the assumed literal_eval / re contracts) and inversion on small documents.",
             "contract-based deductive verification: VCs generated from the real AST (pyvc) discharged by z3/cvc5; bounded run-time contract grid as stand-in",
             "DESIGN.md §6 C12"),
@@ -109,24 +117,29 @@ CHECKS = {
             "DESIGN.md §6 C15"),
     "C16": ("exploration",
             BOUNDED % "16" + "the six console entry points run in-process (argv/stdin/stdout patched) against the library answers: output lines, files, exit codes, "
-            "file vs stdin delivery, YAML and JSON, --quiet, empty --value.  Deductive part (proved, 16 VCs): yaml_diff.print_report returns True exactly when some report "
-            "entry is not SAME, whatever the print options.",
+            "file vs stdin delivery, YAML and JSON, --quiet, empty --value, date leaves, negative document indexes.  Deductive part (proved): yaml_diff.print_report "
+            "returns True exactly when some report entry is not SAME, whatever the print options; yaml-diff get_docs / get_doc / main (a source that does not load "
+            "ends with status 1 before anything is compared, any integer document index gives that document or a reported error, the status is the report's "
+            "verdict); yaml-validate process_file / main (status non-zero exactly when some document of some file failed to load; a failure is never "
+            "overwritten by a later success).",
             "bounded in-process contract check of the CLI entry points",
             "DESIGN.md §6 C16"),
     "C17": ("fault_enumeration",
             "Fault enumeration (bounded): every pre-write failure cause of yaml-set / yaml-merge leaves the directory byte-identical; for successful edits a fault "
             "is injected at the k-th I/O call of the save sequence for every k (before / partial / partial-unflushed, OSError and AssertionError), with/without "
-            "--backup and a stale .bak: target or .bak keeps the original bytes.  Deductive part (proved, 1812 VCs): the ORDER of the save sequences of "
+            "--backup and a stale .bak: target or .bak keeps the original bytes.  Deductive part (proved): the ORDER of the save sequences of "
             "yaml_set.write_output_document and yaml_merge.write_output_document over ghost events of the library calls (stale .bak looked for, removed only when "
-            "it exists, target copied to .bak, and only then the output opened / saved; no .bak touched without --backup).  What each call does to the disk and "
-            "what a half-failed call leaves behind is the fault enumeration's part.",
+            "it exists, target copied to .bak -- called in the one form whose assumed contract says the bytes are copied -- and only then the output opened / saved; "
+            "no .bak touched without --backup), and yaml_merge.main (nothing is written unless every input loaded and merged: see C11).  What each call does to the "
+            "disk and what a half-failed call leaves behind is the fault enumeration's part.",
             "fault enumeration at every I/O call of the real save sequences + contract-based proof of the order of those calls (ghost events, pyvc)",
             "DESIGN.md §6 C17"),
     "C18": ("proof",
             "Driver structure proved for all stream lengths: merge_condense_all, merge_across, merge_matrix and merge_docs are verified iteration by iteration "
             "(ghost events = the merge_with calls each iteration makes; loop invariants over list lengths): every iteration performs exactly the pairwise merge "
             "the mode defines, output counts are functions of mode and lengths, the mode alone selects the driver.  Relative to the merge_with contract (= C05). "
-            "Bounded: streams of length 1..4 x modes x policies against the fold of spec.merge, also through yaml_merge.main().",
+            "Bounded: streams of length 1..4 x modes x policies against the fold of spec.merge, also through yaml_merge.main() with the right-hand stream in a "
+            "file, piped through STDIN, a lone stream piped in with no file argument, and files that hold no document.",
             "contract-based deductive verification of the multi-document drivers (pyvc: loop invariants, per-iteration post-conditions, ghost call events) modulo C05",
             "DESIGN.md §6 C18"),
     "C19": ("exploration",
